@@ -2,6 +2,8 @@
 //! prints one case per line (`fn args => impl-output # class`).  See /verif/DESIGN.md §3.3.
 mod rng; mod util;
 mod big; mod ctx; mod c01; mod c02; mod c03; mod c04; mod c11; mod c05; mod c06; mod c07; mod c08; mod c09; mod c10; mod c12; mod c13; mod ser; mod c14; mod c15; mod c16; mod c17; mod c18;
+mod c19;
+mod c20;
 
 fn main() {
     let a: Vec<String> = std::env::args().collect();
@@ -31,6 +33,8 @@ fn main() {
         "C16" => c16::run(&mut out, thorough, seed, &extra),
         "C17" => c17::run(&mut out, thorough, seed, &extra),
         "C18" => c18::run(&mut out, thorough, seed, &extra),
+        "C19" => c19::run(&mut out, thorough, seed, &extra),
+        "C20" => c20::run(&mut out, thorough, seed, &extra),
         p => { eprintln!("unknown property {}", p); std::process::exit(2); }
     }
     out.flush();
